@@ -16,7 +16,8 @@
 EXTENDS ProtoValid, TLC, Json
 
 CONSTANTS
-  Bases,       \* initial workspaces: small {"p2","p3","ed","p2p2","p3p2","p2p3","edp2","p3p3"}, rich {"R2","R3","RE"}
+  Bases,       \* initial workspaces: small {"p2","p3","ed","p2p2","p3p2","p2p3","edp2","p3p3","p2pub","p3pub"},
+               \* rich {"R2","R3","RE"}
   Pkg1Ids,     \* packages of f1 in the small bases: subset of {"none","a","ab","b"}
   MaxAdds,     \* bound on the number of additive edits applied to a base
   GrowBases,   \* bases that additive edits are applied to
@@ -45,6 +46,12 @@ F2For(s2) ==
 F1For(s1, p, imps) ==
   XFile("f1.proto", p, s1, imps,
         << XMsg("m", 0), XFld("zf", 1, 1, Singular(s1), TScalar("int32")) >>)
+(* f1 -> f3 -(public)-> f2: f1 uses a type of f2 that it sees only through the re-export *)
+F3Pub == XFile("f3.proto", <<>>, "proto2", <<Imp("f2.proto", "public")>>, <<>>)
+F1Pub(s1, p) ==
+  XFile("f1.proto", p, s1, <<Imp("f3.proto", "plain")>>,
+        << XMsg("m", 0), XFld("zf", 1, 1, Singular(s1), TScalar("int32")),
+           XFld("zh", 1, 2, Singular(s1), TRef(Abs(<<"b", "m">>))) >>)
 BaseWs(b, p) ==
   CASE b = "p2" -> << F1For("proto2", p, <<>>) >>
     [] b = "p3" -> << F1For("proto3", p, <<>>) >>
@@ -53,6 +60,8 @@ BaseWs(b, p) ==
     [] b = "p3p2" -> << F1For("proto3", p, <<Imp("f2.proto", "plain")>>), F2For("proto2") >>
     [] b = "p2p3" -> << F1For("proto2", p, <<Imp("f2.proto", "plain")>>), F2For("proto3") >>
     [] b = "p3p3" -> << F1For("proto3", p, <<Imp("f2.proto", "plain")>>), F2For("proto3") >>
+    [] b = "p2pub" -> << F1Pub("proto2", p), F2For("proto2"), F3Pub >>
+    [] b = "p3pub" -> << F1Pub("proto3", p), F2For("proto3"), F3Pub >>
     [] OTHER      -> << F1For("editions", p, <<Imp("f2.proto", "plain")>>), F2For("proto2") >>
 
 (* rich bases: one of (nearly) every construct, so that every rule is one mutation away *)
@@ -63,19 +72,22 @@ RichF1(syn, pkg) ==
   LET sing == Singular(syn)
       p3 == syn = "proto3"
   IN XFile("f1.proto", pkg, syn, <<Imp("f2.proto", "plain")>>,
-       << [XMsg("m", 0) EXCEPT !.xr = IF p3 THEN <<>> ELSE << <<100, 199>> >>, !.rr = << <<5, 6>> >>, !.rn = <<"zg">>],
-          XFld("zf", 1, 1, sing, TScalar("int32")),
+       << [XMsg("m", 0) EXCEPT !.xr = IF p3 THEN <<>> ELSE << <<100, 199>> >>, !.rr = << <<5, 6>> >>, !.rn = <<"zn">>],
+          [XFld("zf", 1, 1, sing, TScalar("int32")) EXCEPT !.dep = TRUE],
           [XFld("z_f", 1, 2, IF syn = "editions" THEN "" ELSE "optional", TRef(Rel(<<"b">>))) EXCEPT !.dflt = IF p3 THEN "" ELSE "zb"],
           XMap("zm", 1, 3, "string", TScalar("int32")),
           XOneof("zo", 1),
           XFld("zi", 5, 4, "", TScalar("string")),
           XMsg("a", 1),
           XFld("zh", 1, 7, "repeated", TRef(Abs(<<"b", "m">>))),
-          XEnum("b", 0), XVal("za", 9, 0), XVal("zb", 9, 1),
+          [XEnum("b", 0) EXCEPT !.alias = TRUE], XVal("za", 9, 0), XVal("zb", 9, 1),
           XSvc("zs"), [XMtd("zr", 12, Rel(<<"m">>), Abs(<<"b", "m">>)) EXCEPT !.ss = TRUE],
           XFld("zk", 1, 8, sing, TRef(Rel(<<"m">>))) >>
        \o (IF p3 THEN << >> ELSE << XExt("zx", 0, 100, sing, Rel(<<"m">>), TScalar("int32")),
-                                     XExt("zy", 1, 101, "repeated", Abs(pkg \o <<"m">>), TRef(Rel(<<"b">>))) >>))
+                                     XExt("zy", 1, 101, "repeated", Abs(pkg \o <<"m">>), TRef(Rel(<<"b">>))) >>)
+       \o << XVal("zd", 9, 1) >>
+       \o (IF syn = "proto2" THEN XGroup("Zg", 1, 9, "optional", 18) \o << XFld("zf", 18, 1, "optional", TScalar("int32")) >>
+           ELSE << >>))
 RichWs(b) == CASE b = "R2" -> << RichF1("proto2", <<"a">>), F2Rich >>
                [] b = "R3" -> << RichF1("proto3", <<"a", "b">>), F2Rich >>
                [] OTHER    -> << RichF1("editions", <<"a">>), F2Rich >>
@@ -103,6 +115,9 @@ Accept(w2, mode) ==
            /\ ws' = w2 /\ tag' = b /\ base' = base
            /\ nadd' = IF b = {} THEN nadd + 1 ELSE nadd
 
+IsGroupDecl(dl) == dl.grp \/ dl.gof # 0
+(* dropping declaration x shifts later indices; a later group field's gof would go stale *)
+NoGroupAfter(F, x) == \A c \in Decls(F) : c > x => F.decls[c].gof = 0
 MutOK == tag = {} /\ base \in MutBases /\ nadd <= MutMaxN
 AddDecls(g, ds) == [ws EXCEPT ![g].decls = @ \o ds]
 SetDecl(g, d, dl) == [ws EXCEPT ![g].decls[d] = dl]
@@ -202,7 +217,8 @@ MutSetLabel == "SetLabel" \in Muts /\ MutOK /\
   \E g \in UFiles : \E d \in Focus(g) : \E l \in Labels \ {ws[g].decls[d].label} :
     Accept(SetDecl(g, d, [ws[g].decls[d] EXCEPT !.label = l]), "mut")
 MutRetarget == "Retarget" \in Muts /\ MutOK /\
-  \E g \in UFiles : \E s \in Sites(ws[g]) : \E sp \in WideSp \ {SlotSpelling(ws[g], s[1], s[2])} :
+  \E g \in UFiles : \E s \in {x \in Sites(ws[g]) : ws[g].decls[x[1]].gof = 0} :
+    \E sp \in WideSp \ {SlotSpelling(ws[g], s[1], s[2])} :
     Accept([ws EXCEPT ![g] = SetSlot(@, s[1], s[2], sp)], "mut")
 MutSetSyntax == "SetSyntax" \in Muts /\ MutOK /\
   \E g \in UFiles : \E s \in {"proto2", "proto3", "editions"} \ {ws[g].syntax} :
@@ -218,7 +234,8 @@ CollisionNames(g, d) ==
      \cup (IF sp = 0 THEN {w[1] : w \in {ws[h].pkg : h \in UFiles} \ {<<>>}} ELSE {})
      \cup (IF F.decls[d].kind = "field" THEN Range(F.decls[sp].rn) \cup {t[2] : t \in {u \in JsonTwins : u[1] \in sibs}} ELSE {})
 MutSetName == "SetName" \in Muts /\ MutOK /\
-  \E g \in UFiles : \E d \in Decls(ws[g]) : \E nm \in CollisionNames(g, d) \ {ws[g].decls[d].name} :
+  \E g \in UFiles : \E d \in {x \in Decls(ws[g]) : ~IsGroupDecl(ws[g].decls[x])} :
+    \E nm \in CollisionNames(g, d) \ {ws[g].decls[d].name} :
     Accept(SetDecl(g, d, [ws[g].decls[d] EXCEPT !.name = nm]), "mut")
 MutSetPkg == "SetPkg" \in Muts /\ MutOK /\
   \E g \in UFiles : \E p \in {<<>>, <<"a">>, <<"b">>, <<"a", "b">>, <<"m">>, <<"a", "m">>} \ {ws[g].pkg} :
@@ -232,29 +249,54 @@ DropAt(F, d) ==
       Fix(dl) == IF dl.parent > d THEN [dl EXCEPT !.parent = @ - 1] ELSE dl
   IN [F EXCEPT !.decls = <<>> \o [i \in 1..(n - 1) |-> Fix(F.decls[IF i < d THEN i ELSE i + 1])]]
 MutDropLeaf == "DropLeaf" \in Muts /\ MutOK /\
-  \E g \in UFiles : \E d \in {x \in Decls(ws[g]) : \A c \in Decls(ws[g]) : ws[g].decls[c].parent # x} :
+  \E g \in UFiles : \E d \in {x \in Decls(ws[g]) : ~IsGroupDecl(ws[g].decls[x]) /\ NoGroupAfter(ws[g], x)
+                                                    /\ \A c \in Decls(ws[g]) : ws[g].decls[c].parent # x} :
     Accept([ws EXCEPT ![g] = DropAt(@, d)], "mut")
 MutSetMapKey == "SetMapKey" \in Muts /\ MutOK /\
-  \E g \in UFiles : \E d \in Focus(g) \cap Flds(ws[g]) :
+  \E g \in UFiles : \E d \in {x \in Focus(g) \cap Flds(ws[g]) : ws[g].decls[x].gof = 0} :
     \E k \in (IF IsMap(ws[g].decls[d]) THEN {"float", "double", "bytes"} ELSE {"string"}) :
       Accept(SetDecl(g, d, [ws[g].decls[d] EXCEPT !.mapkey = k]), "mut")
 MutSetDflt == "SetDflt" \in Muts /\ MutOK /\
-  \E g \in UFiles : \E d \in Focus(g) : \E v \in {"7", "true", "hi", "za", "zb"} \ {ws[g].decls[d].dflt} :
+  \E g \in UFiles : \E d \in {x \in Focus(g) : ws[g].decls[x].gof = 0} : \E v \in {"7", "true", "hi", "za", "zb"} \ {ws[g].decls[d].dflt} :
     Accept(SetDecl(g, d, [ws[g].decls[d] EXCEPT !.dflt = v]), "mut")
 
 (* the same attribute edits as ADDITIVE steps when they keep the workspace valid (a default, a
    json_name or a stream flag that was not there before) *)
 AddDflt == "AddDflt" \in Edits /\ tag = {} /\
-  \E g \in UFiles : \E d \in {x \in Focus(g) : ws[g].decls[x].dflt = ""} : \E v \in {"7", "true", "hi", "za", "zb"} :
+  \E g \in UFiles : \E d \in {x \in Focus(g) : ws[g].decls[x].dflt = "" /\ ws[g].decls[x].gof = 0} : \E v \in {"7", "true", "hi", "za", "zb"} :
     Accept(SetDecl(g, d, [ws[g].decls[d] EXCEPT !.dflt = v]), IF "AddDflt" \in MutAdds /\ MutOK THEN "both" ELSE "edit")
 AddJson == "AddJson" \in Edits /\ tag = {} /\
-  \E g \in UFiles : \E d \in {x \in Focus(g) \cap Flds(ws[g]) : ws[g].decls[x].json = ""} : \E v \in {"zj", "zF", "Zf"} :
+  \E g \in UFiles : \E d \in {x \in Focus(g) \cap Flds(ws[g]) : ws[g].decls[x].json = "" /\ ws[g].decls[x].gof = 0} : \E v \in {"zj", "zF", "Zf"} :
     Accept(SetDecl(g, d, [ws[g].decls[d] EXCEPT !.json = v]), IF "AddJson" \in MutAdds /\ MutOK THEN "both" ELSE "edit")
+
+(* allow_alias: switched on together with the value that makes it legitimate *)
+AddAliasVal == "AddAliasVal" \in Edits /\ tag = {} /\
+  \E g \in UFiles : \E e \in {x \in OfKind(ws[g], "enum") : ~ws[g].decls[x].alias} : \E v \in ValNames :
+    LET first == CHOOSE c \in Decls(ws[g]) : ws[g].decls[c].parent = e /\ \A c2 \in Decls(ws[g]) : ws[g].decls[c2].parent = e => c <= c2
+    IN Accept([AddDecls(g, << XVal(v, e, ws[g].decls[first].num) >>) EXCEPT ![g].decls[e].alias = TRUE], "edit")
+MutDropAlias == "DropAlias" \in Muts /\ MutOK /\
+  \E g \in UFiles : \E e \in {x \in OfKind(ws[g], "enum") : ws[g].decls[x].alias} :
+    Accept(SetDecl(g, e, [ws[g].decls[e] EXCEPT !.alias = FALSE]), "mut")
+AddDep == "AddDep" \in Edits /\ tag = {} /\
+  \E g \in UFiles : \E d \in {x \in Focus(g) : ~ws[g].decls[x].dep /\ ws[g].decls[x].gof = 0} :
+    Accept(SetDecl(g, d, [ws[g].decls[d] EXCEPT !.dep = TRUE]), "edit")
+(* a group with one field inside; only messages that are not groups themselves get one *)
+AddGroup == "AddGroup" \in Edits /\ tag = {} /\
+  \E g \in UFiles : \E p \in {m \in MsgsOf(g) : ~ws[g].decls[m].grp} : \E nm \in {"Zg", "A"} : \E l \in Labels :
+    LET at == Len(ws[g].decls) + 1
+    IN Accept(AddDecls(g, XGroup(nm, p, FreeNum(ws[g], p), l, at)
+                          \o << XFld("zf", at, 1, Singular(ws[g].syntax), TScalar("int32")) >>),
+              IF "AddGroup" \in MutAdds /\ MutOK THEN "both" ELSE "edit")
+(* plain <-> public *)
+MutSetImpKind == "SetImpKind" \in Muts /\ MutOK /\
+  \E g \in UFiles : \E k \in 1..Len(ws[g].imports) :
+    Accept([ws EXCEPT ![g].imports[k].kind = IF @ = "public" THEN "plain" ELSE "public"], "mut")
 
 Next == \/ AddMsg \/ AddEnum \/ AddVal \/ AddFld \/ AddMap \/ AddOneof \/ AddExt \/ AddSvc \/ AddMtd
         \/ AddImport \/ AddRange \/ AddRName \/ AddDflt \/ AddJson
         \/ MutSetNum \/ MutSetLabel \/ MutRetarget \/ MutSetSyntax \/ MutSetName \/ MutSetPkg
         \/ MutSetValNum \/ MutDropLeaf \/ MutSetMapKey \/ MutSetDflt
+        \/ AddAliasVal \/ MutDropAlias \/ AddDep \/ MutSetImpKind \/ AddGroup
 
 InitWs == {<<b, BaseWs(b, PkgOf(p))>> : b \in {x \in Bases : ~IsRich(x)}, p \in Pkg1Ids}
           \cup {<<b, RichWs(b)>> : b \in {x \in Bases : IsRich(x)}}
@@ -283,6 +325,9 @@ Features(w) ==
                          \cup (IF dl.rr # <<>> THEN {"F-reserved"} ELSE {})
                          \cup (IF dl.rn # <<>> THEN {"F-reserved-name"} ELSE {})
                          \cup (IF dl.cs \/ dl.ss THEN {"F-stream"} ELSE {})
+                         \cup (IF dl.alias THEN {"F-allow-alias"} ELSE {})
+                         \cup (IF dl.dep THEN {"F-deprecated"} ELSE {})
+                         \cup (IF dl.grp THEN {"F-group"} ELSE {})
                          \cup (IF dl.kind = "field" /\ F.syntax = "proto3" /\ dl.label = "optional" THEN {"F-proto3-optional"} ELSE {})
                          \cup (IF dl.kind = "field" /\ InOneof(F, d) THEN {"F-oneof-member"} ELSE {})
                        : d \in Decls(F)}
